@@ -4,6 +4,7 @@ set -e
 cd "$(dirname "$0")"
 /venv/bin/python harness/translate_geometry.py quick 2>/dev/null | grep -v "WARNING conda" || true
 /venv/bin/python harness/translate_formulas.py 2>/dev/null | grep -v "WARNING conda" || true
+/venv/bin/python harness/translate_rules.py 2>/dev/null | grep -v "WARNING conda" || true
 [ -f harness/translate_objectives.py ] && (/venv/bin/python harness/translate_objectives.py 2>/dev/null | grep -v "WARNING conda" || true)
 cd lean
 lake build PyXABModel driver 2>&1 | grep -v "WARNING conda" | tail -3
